@@ -1,6 +1,10 @@
 package pkcs7
 
-import "bytes"
+import (
+	"bytes"
+	"crypto/rand"
+	"errors"
+)
 
 // C13/C16: the hand-written BER reader on arbitrary bytes.
 
@@ -108,6 +112,53 @@ func verifH_c16_length() {
 				verifAssert(b[1+j] == byte(i>>(8*uint(k-1-j))), "big-endian length bytes")
 			}
 		}
+	}
+	verifReach("end")
+}
+
+// C16 (narrow): the default session's content-encryption key is exactly what the random source delivered;
+// if the source fails, an error and NO key come back (an envelope is never sealed under a key that was
+// not drawn).
+type c16FailReader struct{ fail bool }
+
+func (r *c16FailReader) Read(p []byte) (int, error) {
+	if r.fail {
+		return 0, c16ErrRand
+	}
+	for i := range p {
+		p[i] = byte(0xA5 + i)
+	}
+	return len(p), nil
+}
+
+var c16ErrRand = errors.New("random source failed")
+
+func verifH_c16_datakey() {
+	size := verifParam("size")
+	if !verifSymbolic() {
+		old := rand.Reader
+		defer func() { rand.Reader = old }()
+		rand.Reader = &c16FailReader{fail: true}
+		key, err := DefaultSession{}.GenerateDataKey(size)
+		verifAssert(err != nil && key == nil, "a failing random source yields an error and no key")
+		rand.Reader = &c16FailReader{}
+		key, err = DefaultSession{}.GenerateDataKey(size)
+		verifAssert(err == nil && len(key) == size, "a working random source yields a key of the requested size")
+		for i := range key {
+			verifAssert(key[i] == byte(0xA5+i), "the key is exactly the bytes the source delivered")
+		}
+		verifReach("ok")
+		verifReach("failed")
+		verifReach("end")
+		return
+	}
+	key, err := DefaultSession{}.GenerateDataKey(size)
+	if verifRandFailed() {
+		verifAssert(err != nil && key == nil, "a failing random source yields an error and no key")
+		verifReach("failed")
+	} else {
+		verifAssert(err == nil && len(key) == size, "a working random source yields a key of the requested size")
+		verifReach("ok")
 	}
 	verifReach("end")
 }
